@@ -229,6 +229,58 @@ def family_sites(prog, root, prefix, blocks_of, depth=2):
     return out
 
 
+def predicate_true_conditions(prog, h):
+    """For a crate-local boolean helper `h` that is one conjunction (`a && b && c`, possibly with early `return false`s): the conditions, in
+    terms of h's own parameters, that hold exactly when it returns true. None when h is anything else (a loop, several ways to return true,
+    calls with effects)."""
+    if h is None or h.natural_loops() or '{closure' in h.path:
+        return None
+    if [c for c in h.calls() if not h.blocks[c.bb].get('cleanup') and c.name() not in ('eq', 'ne', 'lt', 'le', 'gt', 'ge', 'deref', 'as_str', 'as_ref', 'borrow', 'span', 'len', 'is_empty')]:
+        return None
+    trues = []
+    for bb, j, lhs, rv, st in h.assigns():
+        if lhs['l'] != 0 or not is_bare(lhs) or h.blocks[bb].get('cleanup') or bb not in h.reachable(0):
+            continue
+        if rv['k'] == 'use' and const_int(rv['a']) in (0, 1):
+            if const_int(rv['a']) == 1:
+                trues.append(guard_set(prog, h, bb))
+            continue
+        if rv['k'] == 'use':
+            ex = _norm(vexpr(h, rv['a'], depth=20))
+        elif rv['k'] in ('bin', 'un'):
+            ex = _norm(_rv(h, rv))
+        else:
+            return None
+        trues.append(sorted(set(guard_set(prog, h, bb)) | {canon(ex)}))
+    for c in h.calls():
+        if c.dest is not None and c.dest.get('l') == 0 and is_bare(c.dest) and not h.blocks[c.bb].get('cleanup') and c.bb in h.reachable(0):
+            ex = _norm('%s(%s)' % (c.name(), ','.join(vexpr(h, a, depth=20) for a in c.args)))
+            trues.append(sorted(set(guard_set(prog, h, c.bb)) | {canon(ex)}))
+    if len(trues) != 1 or '<unreachable>' in trues[0]:
+        return None
+    return trues[0]
+
+
+def expand_predicates(prog, f, gs):
+    """guard strings of f with every bare call of a crate-local conjunction helper (`is_written_inside(a, b)`) replaced by the conditions it
+    stands for, its parameters substituted by the actual arguments; other guards are kept as they are"""
+    out = []
+    for g in gs:
+        m = re.match(r'^(\w+)\((.*)\)$', g)
+        h = None
+        if m:
+            cands = {c.resolved for c in f.calls() if c.name() == m.group(1) and c.resolved in prog.fns and prog.fns[c.resolved].crate.tag == f.crate.tag}
+            if len(cands) == 1:
+                h = prog.fns[cands.pop()]
+        conds = predicate_true_conditions(prog, h) if h is not None else None
+        if conds is None:
+            out.append(g)
+            continue
+        actual = {'arg%d' % (i + 1): a for i, a in enumerate(_split_args(m.group(2)))}
+        out.extend(canon(_subst_args(c, actual)) for c in conds)
+    return sorted(set(out))
+
+
 def canon(g):
     """canonical spelling of a comparison guard: no negated comparison, no Gt/Ge (so `a < b`, `!(a >= b)` and `b > a` read alike)"""
     neg = False
